@@ -28,6 +28,8 @@ pub trait Fam {
     const NAME: &'static str;
     const TYPES: usize;
     fn gen(rng: &mut Rng, t: usize, sz: Sizes) -> Self::P;
+    /// valid packets on a grid (derived-length and list-count sweeps)
+    fn sweep(thorough: bool) -> Vec<Self::P>;
     fn show(p: &Self::P) -> String;
     fn parse(toks: &[&str]) -> Option<Self::P>;
     fn encode(p: &Self::P) -> Result<Vec<u8>, ErrInfo>;
@@ -118,6 +120,9 @@ impl Fam for V3 {
     fn gen(rng: &mut Rng, t: usize, sz: Sizes) -> Self::P {
         gen_v3(rng, t % V3_TYPES, sz)
     }
+    fn sweep(thorough: bool) -> Vec<Self::P> {
+        crate::pgen::sweep_v3(thorough)
+    }
     fn show(p: &Self::P) -> String {
         crate::v3text::show(p)
     }
@@ -178,6 +183,9 @@ impl Fam for V5 {
     fn gen(rng: &mut Rng, t: usize, sz: Sizes) -> Self::P {
         let pmode = [0u8, 0, 1, 2, 3, 4][(t / V5_TYPES) % 6];
         gen_v5(rng, t % V5_TYPES, sz, pmode, t / (6 * V5_TYPES))
+    }
+    fn sweep(thorough: bool) -> Vec<Self::P> {
+        crate::pgen::sweep_v5(thorough)
     }
     fn show(p: &Self::P) -> String {
         crate::v5text::show(p)
